@@ -176,11 +176,15 @@ pub fn gen_c14(sh: &mut Shards, o: &Opts) -> serde_json::Value {
     // ignore transfer and primaries also for foot-/head-room codes and out-of-gamut RGB
     for &(nb, full, ssx, ssy) in &[(8u8, false, 1u8, 1u8), (8, true, 1, 0), (10, false, 1, 1), (10, false, 0, 0), (12, true, 1, 0), (16, false, 1, 1)] {
         if nb == 8 {
-            n += layout_rows::<u8>(sh, nb, full, ssx, ssy);
+            n += layout_rows::<u8>(sh, nb, full, ssx, ssy, false);
         } else {
-            n += layout_rows::<u16>(sh, nb, full, ssx, ssy);
+            n += layout_rows::<u16>(sh, nb, full, ssx, ssy, false);
         }
     }
+    // ... and on pictures whose chroma is neutral everywhere (a decoder's greyscale shortcut must not skip the validation of
+    // the metadata: support stays symmetric and the errors stay the same)
+    n += layout_rows::<u8>(sh, 8, false, 0, 0, true);
+    n += layout_rows::<u16>(sh, 10, true, 1, 1, true);
     std::panic::set_hook(prev);
     serde_json::json!({"triples": n, "calls": n * 18, "distinct": n})
 }
@@ -203,9 +207,15 @@ fn lay_yuv(nb: u8) -> Vec<[u16; 3]> {
         [s(145), s(252), s(3)],
     ]
 }
-fn layout_rows<T: yuvxyb::Pixel>(sh: &mut Shards, nb: u8, full: bool, ssx: u8, ssy: u8) -> u64 {
+fn layout_rows<T: yuvxyb::Pixel>(sh: &mut Shards, nb: u8, full: bool, ssx: u8, ssy: u8, grey: bool) -> u64 {
     let (w, h) = (4usize, 2usize);
-    let ypx = lay_yuv(nb);
+    let mut ypx = lay_yuv(nb);
+    if grey {
+        for p in ypx.iter_mut() {
+            p[1] = 1u16 << (nb - 1);
+            p[2] = 1u16 << (nb - 1);
+        }
+    }
     let y2r = |c: &Cfg| -> (String, Option<Rgb>) {
         guard_y(|| yuv444::<T>(&ypx, w, h, c), |y| Rgb::try_from(y))
     };
@@ -230,7 +240,7 @@ fn layout_rows<T: yuvxyb::Pixel>(sh: &mut Shards, nb: u8, full: bool, ssx: u8, s
                 let xyb = || Xyb::from(lin());
                 let (ref_y2r, ref_r2y) = &refs[m as usize];
                 let mut s = String::new();
-                let _ = write!(s, "\"ev\":\"c14row\",\"lay\":[{nb},{},{ssx},{ssy}],\"mc\":{m},\"tc\":{t},\"cp\":{p},\"res\":{{", u8::from(full));
+                let _ = write!(s, "\"ev\":\"c14row\",\"lay\":[{nb},{},{ssx},{ssy},{}],\"mc\":{m},\"tc\":{t},\"cp\":{p},\"res\":{{", u8::from(full), u8::from(grey));
                 let (a, out_y2r) = y2r(&c);
                 let _ = write!(s, "\"YuvToRgb\":\"{a}\"");
                 let (a, out_r2y) = r2y(&c, t, p);
